@@ -25,7 +25,7 @@ ASSUMPTIONS = ['monotone policies only (the quantifier)', 'OpenSSH banner + firs
 SIZES = [512, 768, 1024, 1536, 2048, 3072, 4096, 6144, 8192]
 STYLES = ['strict', 'roundup', 'openssh']
 ALGSETS = [['diffie-hellman-group-exchange-sha1'], ['diffie-hellman-group-exchange-sha256'], ['diffie-hellman-group-exchange-sha256', 'diffie-hellman-group-exchange-sha1']]
-BANNERS = {'openssh': ['SSH-2.0-OpenSSH_7.4', 'SSH-2.0-OpenSSH_9.6', 'SSH-2.0-OpenSSH_5.6'], 'other': ['SSH-2.0-Sim_1.0', 'SSH-2.0-libssh_0.9.6', 'SSH-2.0-dropbear_2020.81']}
+BANNERS = {'openssh': ['SSH-2.0-OpenSSH_7.4', 'SSH-2.0-OpenSSH_9.6', 'SSH-2.0-OpenSSH_5.6', 'SSH-2.0-OpenSSH_for_Windows_8.1', 'SSH-2.0-OpenSSH_8.9p1 Ubuntu-3ubuntu0.6', 'SSH-2.0-OpenSSH'], 'other': ['SSH-2.0-Sim_1.0', 'SSH-2.0-libssh_0.9.6', 'SSH-2.0-dropbear_2020.81']}
 SEQ = [(512, 1024, 1536)] + [(b, b, b) for b in (512, 768, 1024, 1536, 2048, 3072, 4096)] + [(2048, 3072, 4096)]
 SMALL = 'using small %d-bit modulus'
 W2048 = '2048-bit modulus only provides 112-bits of symmetric strength'
